@@ -339,8 +339,10 @@ class Prov:
         return f"Prov(leaves={sorted(self.leaves)}, ops={sorted(self.ops)})"
 
 
-def local_defs(func: ast.AST) -> Dict[str, List[Tuple[ast.AST, Tuple[str, ...]]]]:
-    """name -> list of (rhs expr, extra ops) for every binding of a local name."""
+def local_defs(func: ast.AST, scope: Optional[Sequence[ast.stmt]] = None) -> Dict[str, List[Tuple[ast.AST, Tuple[str, ...]]]]:
+    """name -> list of (rhs expr, extra ops) for every binding of a local name.
+
+    ``scope``: only bindings inside these statements are considered (arm-sensitive provenance)."""
     defs: Dict[str, List[Tuple[ast.AST, Tuple[str, ...]]]] = {}
 
     def bind(target: ast.AST, value: ast.AST, ops: Tuple[str, ...]) -> None:
@@ -355,7 +357,15 @@ def local_defs(func: ast.AST) -> Dict[str, List[Tuple[ast.AST, Tuple[str, ...]]]
         elif isinstance(target, ast.Starred):
             bind(target.value, value, ops + ("[*]",))
 
-    for n in walk_local(func):
+    def _nodes():
+        if scope is None:
+            yield from walk_local(func)
+        else:
+            for st in scope:
+                yield st
+                yield from walk_local(st)
+
+    for n in _nodes():
         if isinstance(n, ast.Assign):
             for t in n.targets:
                 bind(t, n.value, ())
@@ -378,8 +388,8 @@ def local_defs(func: ast.AST) -> Dict[str, List[Tuple[ast.AST, Tuple[str, ...]]]
     return defs
 
 
-def provenance(expr: ast.AST, func: ast.AST, _defs=None, _seen=None) -> Prov:
-    defs = _defs if _defs is not None else local_defs(func)
+def provenance(expr: ast.AST, func: ast.AST, _defs=None, _seen=None, scope: Optional[Sequence[ast.stmt]] = None) -> Prov:
+    defs = _defs if _defs is not None else local_defs(func, scope)
     seen: Set[str] = _seen if _seen is not None else set()
     params = set()
     if isinstance(func, FuncT):
